@@ -1932,7 +1932,7 @@ static bool chr_is_ternary(CMR_CHRMAT* M)
 }
 
 /* the ten verdicts: TU REG GRA COG NET CONET SPT SPB BAL CAM; 2 = not applicable / undetermined / error */
-static void o_verdicts(CMR* cmr, CMR_CHRMAT* M, int strategy)
+static void o_verdicts(CMR* cmr, CMR_CHRMAT* M, int strategy, bool first)
 {
   bool bin = chr_is_binary(M), tern = chr_is_ternary(M);
   unsigned char f;
@@ -1943,7 +1943,26 @@ static void o_verdicts(CMR* cmr, CMR_CHRMAT* M, int strategy)
   /* strategy >= 1000 selects the TU algorithm for the first verdict instead (1001 Eulerian, 1002 partition; both are
    * exponential and only run up to 8x8) */
   bool skipTU = false;
-  if (strategy >= 1000)
+  /* strategy >= 2000: parameter independence - the FIRST matrix of a pair is tested with non-default parameters
+   * (bit 0: directGraphicness off, bit 1: seriesParallel off, bit 2: planarityCheck on, bits 3..: index of the decompose
+   * strategy), the second one with the defaults */
+  if (strategy >= 2000)
+  {
+    int x = strategy - 2000;
+    if (first)
+    {
+      static const int strategies[5] = { CMR_SEYMOUR_DECOMPOSE_FLAG_DISTRIBUTED_DELTASUM | CMR_SEYMOUR_DECOMPOSE_FLAG_CONCENTRATED_PIVOT,
+        CMR_SEYMOUR_DECOMPOSE_FLAG_DISTRIBUTED_YSUM | CMR_SEYMOUR_DECOMPOSE_FLAG_CONCENTRATED_PIVOT,
+        CMR_SEYMOUR_DECOMPOSE_FLAG_DISTRIBUTED_PIVOT | CMR_SEYMOUR_DECOMPOSE_FLAG_CONCENTRATED_THREESUM,
+        CMR_SEYMOUR_DECOMPOSE_FLAG_DISTRIBUTED_DELTASUM | CMR_SEYMOUR_DECOMPOSE_FLAG_CONCENTRATED_THREESUM,
+        CMR_SEYMOUR_DECOMPOSE_FLAG_DISTRIBUTED_YSUM | CMR_SEYMOUR_DECOMPOSE_FLAG_CONCENTRATED_THREESUM };
+      tup.seymour.directGraphicness = rp.seymour.directGraphicness = !(x & 1);
+      tup.seymour.seriesParallel = rp.seymour.seriesParallel = !(x & 2);
+      tup.seymour.planarityCheck = rp.seymour.planarityCheck = (x & 4) != 0;
+      tup.seymour.decomposeStrategy = rp.seymour.decomposeStrategy = strategies[(x >> 3) % 5];
+    }
+  }
+  else if (strategy >= 1000)
   {
     tup.algorithm = (CMR_TU_ALGORITHM) (strategy - 1000);
     skipTU = M->numRows > 8 || M->numColumns > 8;
@@ -2002,8 +2021,8 @@ static void do_rel(CMR* cmr)
     oi(p2[i]);
   o_chr_dense(M);
   o_chr_dense(N);
-  o_verdicts(cmr, M, strategy);
-  o_verdicts(cmr, N, strategy);
+  o_verdicts(cmr, M, strategy, true);
+  o_verdicts(cmr, N, strategy, false);
   rec_end();
   free(p1);
   free(p2);
